@@ -664,7 +664,9 @@ PROPS["C18"] = _ics20_prop("C18", 2, C18_CLAUSES, "allow list, governance addres
     "only when made by the current governance address; IBC entry points and migrate never touch the allow list; migrate sets "
     "governance only from the pre-allow-list layout and keeps the default gas limit unless asked; a cw20 transfer is accepted "
     "only if the token is allowed or a default limit is set; every payout/refund carries the token's limit or else the default "
-    "(none for native). Tie to the Rust: S_C18 on every step incl. gas_limit of the logged sub-messages (measured).")
+    "(none for native); over EVERY history of world operations (calls, cw20 sends, packets with either payout outcome, acks, "
+    "timeouts, donations, migrations) the allow list only ever loosens (c18_allow_only_loosens_history, by induction), and a "
+    "history without governance calls and migrations changes no governance data. Tie to the Rust: S_C18 on every step incl. gas_limit of the logged sub-messages (measured).")
 
 
 # ------------------------------------------------------------------------------------------
